@@ -18,7 +18,7 @@ CHECKS = {
  "C04": ("exploration", "enumerated error patterns (all 1-/2-bit, all bursts <= 24) + proptest heavy patterns on generated intact squitters; reference CRC decides reject; batched table-unchanged oracle with bisection",
          "every CRC-detectable corruption of generated squitters must leave the table bit-for-bit unchanged",
          "reference CRC-24; DF11 rule = upper 17 remainder bits zero", "DESIGN.md §6 C04"),
- "C05": ("exploration", "exhaustive altitude-code enumeration (8192 AC13 x DF4/DF20, 4096 AC12 x TC9-18) x proptest contexts against an independent Q-bit/Gillham decoder; Gillham class pinned by a known-findings table",
+ "C05": ("exploration", "exhaustive altitude-code enumeration (8192 AC13 x DF4/DF20, 4096 AC12 x TC9-18) x proptest contexts against an independent Q-bit/Gillham decoder + proptest report sequences (DF4/DF20/airborne-position mix, codes from a small pool, latest report wins after every step); Gillham class pinned by a known-findings table",
          "complete over the code dimension, sampled over context (payload, address, path, options)",
          "Gillham codes are a recorded known finding evaluated on canonical frames", "DESIGN.md §6 C05"),
  "C06": ("exploration", "exhaustive identity-code enumeration (8192 x DF5/DF21) x proptest contexts against an octal-digit reference + proptest histories of foreign frames + proptest reply sequences (codes from a small pool, latest reply wins after every step)",
